@@ -29,7 +29,7 @@ const modPath = "git.sr.ht/~adrian-blx/psa-dhcp/"
 var targets = map[string][]string{
 	"lib/layer":           {"setV4Checksum", "ipv4csum", "udp4csum", "pseudohdrcsum", "UDP.Assemble", "DecodeUDP", "IPv4.Assemble", "DecodeIPv4", "ARP.Assemble", "DecodeARP"},
 	"lib/server/ipdb/uip": {"Uip.ToV4", "Uip.Valid", "Uip.String"},
-	"lib/server/ipdb": {"fromTo", "IPDB.toUip", "IPDB.InManagedRange", "IPDB.SetDynamicRange", "IPDB.DisableDynamic",
+	"lib/server/ipdb": {"New", "fromTo", "IPDB.toUip", "IPDB.InManagedRange", "IPDB.SetDynamicRange", "IPDB.DisableDynamic",
 		"IPDB.LookupClientByDuid", "IPDB.AddPermanentClient", "IPDB.UpdateClient", "IPDB.FindIP"},
 	"lib/server/replies":  {"assembleUdp", "dstFromFlag", "AssembleOffer", "AssembleACK", "AssembleNACK"},
 	"lib/server/ipdb/duid": {"Duid.String"},
@@ -39,7 +39,8 @@ var targets = map[string][]string{
 	"lib/client/dclient": {"catchReply", "dclient.Run", "dclient.ResumeClient", "dclient.buildNetconfig", "dclient.runStateDiscovering", "dclient.runStateSelecting",
 		"dclient.runStateBound", "dclient.runStateRenewing", "dclient.runStateRebinding", "dclient.runStatePurgeInterface", "dclient.runStateIfconfig",
 		"dclient.runStateArpCheck", "dclient.panicReset"},
-	"lib/server":          {"duidFromHwAddr", "server.dhcpOptions", "server.Run", "server.arpVerify", "server.getDuid", "server.handleMsg", "server.handleDiscover", "server.handleRequest", "server.sendNACK", "server.sendMsg"},
+	"lib/server/leaseopts": {"ParseConfig", "SetClientOverrides", "representable", "ipv4"},
+	"lib/server":          {"New", "duidFromHwAddr", "server.dhcpOptions", "server.Run", "server.arpVerify", "server.getDuid", "server.handleMsg", "server.handleDiscover", "server.handleRequest", "server.sendNACK", "server.sendMsg"},
 	"lib/client/verify":   {"verifyCommon", "verifyGenAck", "VerifyOffer", "VerifySelectingAck", "VerifyRenewingAck", "VerifyRebindingAck"},
 	"lib/client/msgtmpl":  {"tmpl.request"},
 	"lib/dhcpmsg": {"Decode", "Message.Assemble", "setU16Int", "setU32Int", "setIPv4", "OptionType", "OptionHostname", "OptionDomainName",
